@@ -220,6 +220,10 @@ def monitor(c):
 # ------------------------------------------------------------------ driver
 
 def strip(c):
+    if c['src'] == 'hist':
+        return {'src': 'hist', 'tag': c.get('tag', 'history'), 'valid': True,
+                'images': [dict(strip(im), queries=[]) for im in c['images']],
+                'steps': [{'img': st['img'], 'name': st['name'], 'fresh': st.get('fresh', False)} for st in c['steps']]}
     d = {k: c[k] for k in ('src', 'tag', 'valid', 'abi', 'secs', 'syms', 'symtab') if k in c}
     if c.get('file'):
         d['file'] = c['file']
@@ -232,7 +236,22 @@ def strip(c):
     return d
 
 
-def run_impl(binary, cases=None, seed=1, n=100, shipped=True):
+def flatten(cases):
+    """history containers -> their images (each image carries the results of
+    the steps performed on it); returns (flat list, container index per entry)"""
+    flat, owner = [], []
+    for ci, c in enumerate(cases):
+        if c['src'] == 'hist':
+            for im in c['images']:
+                flat.append(im)
+                owner.append(ci)
+        else:
+            flat.append(c)
+            owner.append(None)
+    return flat, owner
+
+
+def run_impl(binary, cases=None, seed=1, n=100, shipped=True, nh=0):
     tmp = os.path.join(vlib.BUILD, 'c13_%d.json' % os.getpid())
     args = [binary, '--repo', vlib.REPO, '--out', tmp]
     if cases is not None:
@@ -241,7 +260,7 @@ def run_impl(binary, cases=None, seed=1, n=100, shipped=True):
         rc, log = vlib.run(args + ['--replay', inp])
         os.remove(inp)
     else:
-        rc, log = vlib.run(args + ['--seed', str(seed), '--n', str(n)] + ([] if shipped else ['--shipped=false']))
+        rc, log = vlib.run(args + ['--seed', str(seed), '--n', str(n), '--nh', str(nh)] + ([] if shipped else ['--shipped=false']))
     if rc != 0:
         return None, log
     out = json.load(open(tmp))
@@ -276,6 +295,7 @@ def main(argv):
                        'the sampled objects only decide whether the real loader still behaves like the model']
     thorough = vlib.tier() == 'thorough'
     n = 2500 if thorough else 200
+    nh = 300 if thorough else 30
     replay_file = argv[argv.index('--replay') + 1] if '--replay' in argv else None
 
     ok, log, binary = vlib.go_build('c13')
@@ -308,12 +328,14 @@ def main(argv):
         if corpus:
             cases, log = run_impl(binary, cases=[strip(c) for c in corpus])
             cases = cases or []
-        gen, log = run_impl(binary, seed=vlib.seed(), n=n)
+        gen, log = run_impl(binary, seed=vlib.seed(), n=n, nh=nh)
         if gen is None:
             rep.obligation('harness run', False)
             rep.violation({'broken': 'harness run failed', 'log': log[-4000:]}, nofail=True)
             return rep.finish()
         cases += gen
+    top = cases
+    cases, owner = flatten(top)
     died = [(i, q) for i, c in enumerate(cases) for q in c['queries'] if q['res']['class'] == 'died' or q['res'].get('fatal') == 9]
 
     # ---- property monitor
@@ -354,8 +376,13 @@ def main(argv):
                 'symbol tables and section orders, section addresses up to 2^63, code mimicking or nearly mimicking a header, '
                 'metadata symbols around the rounding boundaries; every 3rd object damaged (colliding names, out-of-range '
                 'symbols, missing sections/symtab, empty name); plus every positive-size .text symbol of every shipped .hsaco. '
-                'non-trivial = at least one call returned a code object with instruction bytes',
-        'objects': len(cases), 'shipped_files': len(shipped), 'shipped_loader_calls': sum(len(c['queries']) for c in shipped),
+                'plus load histories executed by ONE process: an object and two same-length variants (same kernel names, other code / '
+                'headers / descriptors) overwritten in place in one reused buffer, repeated and interleaved loads, an unrelated '
+                'object in between; every returned object is overwritten after it has been recorded, each load is compared with '
+                'the model of that image alone. non-trivial = at least one call returned a code object with instruction bytes',
+        'objects': len(cases), 'histories': sum(1 for c in top if c['src'] == 'hist'),
+        'history_loads': sum(len(c['steps']) for c in top if c['src'] == 'hist'),
+        'history_loads_from_overwritten_buffer': sum(1 for c in top if c['src'] == 'hist' for st in c['steps'] if not st.get('fresh')), 'shipped_files': len(shipped), 'shipped_loader_calls': sum(len(c['queries']) for c in shipped),
         'outcome_histogram': dict(cls), 'generated_kernel_kinds': dict(truth),
         'v5_loads_whose_code_passes_the_header_test': mimic_v5,
         'monitor_judged_calls': sum(1 for c in cases if c.get('valid') for q in c['queries'] if q['name']),
@@ -371,12 +398,39 @@ def main(argv):
         out, _ = run_impl(binary, cases=[c])
         return bool(out) and any(not kn for _, _, kn in monitor(out[0]))
 
+    def nocoq(c):
+        c = dict(c)
+        c.pop('coq', None)
+        if 'images' in c:
+            c['images'] = [nocoq(im) for im in c['images']]
+        return c
+
+    def hist_fails(base, steps):
+        h = strip(base)
+        h['steps'] = steps
+        out, _ = run_impl(binary, cases=[h])
+        if not out:
+            return None
+        fl, _ = flatten(out)
+        msgs = [m for im in fl for _, m, kn in monitor(im) if not kn]
+        return (out[0], msgs[0]) if msgs else None
+
     if bad:
         i, qi, msg = bad[0]
         c = cases[i]
         qname = c['queries'][qi]['name']
         small = c
-        if c['src'] != 'shipped':
+        if owner[i] is not None:
+            # the failing load is part of a history: shrink the sequence of loads
+            h = top[owner[i]]
+            steps = vlib.ddmin(strip(h)['steps'], lambda st: hist_fails(h, st) is not None, budget=60)
+            r = hist_fails(h, steps)
+            if r:
+                small, msg = r
+                msg = 'history of %d loads in one process: %s' % (len(steps), msg)
+            else:
+                small = h
+        elif c['src'] != 'shipped':
             syms = vlib.ddmin(c['syms'], lambda s: fails_monitor(s, c, qname), budget=60)
             c2 = strip(c)
             c2['syms'] = syms
@@ -390,9 +444,7 @@ def main(argv):
             c2['queries'] = [{'name': qname}]
             out, _ = run_impl(binary, cases=[c2])
             small = out[0] if out else c
-        small = dict(small)
-        small.pop('coq', None)
-        rep.violation({'property': PROP, 'what': msg, 'kernel': qname, 'case': small,
+        rep.violation({'property': PROP, 'what': msg, 'kernel': qname, 'case': nocoq(small),
                        'replay_cmd': './check C13 --replay <this file>'}, text='kernel %r: %s' % (qname, msg))
     elif mism or not okc or died:
         if mism:
@@ -404,9 +456,11 @@ def main(argv):
             what = 'loader call for %r of object %d ended unexpectedly: %s' % (q['name'], i, q['res'].get('msg'))
         else:
             i, what = 0, 'the case files do not compile'
-        c = dict(cases[i]) if cases else None
-        if c:
-            c.pop('coq', None)
+        c = None
+        if cases:
+            c = nocoq(top[owner[i]] if owner[i] is not None else cases[i])
+            if owner[i] is not None:
+                what += ' (a load inside a history of loads performed by one process)'
         rep.violation({'property': PROP, 'broken': 'correspondence between coq/hsaco/Hsaco.v and amd/insts/hsaco.go: ' + what +
                        '; theorems of props/C13.v no longer speak about this code', 'case': c, 'log': clog[-2000:]},
                       nofail=True, text='model/implementation mismatch: %s; no property violation found on %d loader calls' % (what, nq))
